@@ -40,7 +40,22 @@ fn gen_stream(stream: &str, n: u64, seed: u64) {
         // every Unicode scalar value (n >= 1) or the blocks where scripts, numerals and case pairs live (n = 0), 256 code points per request
         "scanchars" => { let blocks: Vec<(u32, u32)> = if n >= 1 { vec![(0, 0x110000)] } else { vec![(0, 0x3400), (0xA000, 0xAC00), (0xF900, 0x11000), (0x1D000, 0x1F000), (0xE0000, 0xE0200)] };
             for (a, b) in blocks { let mut s = a; while s < b { writeln!(w, "scanrange {} 256", s).unwrap(); s += 256; } } }
+        // pure builtins on inputs big enough for ONE call to take about two seconds (n families; the regex ones first)
+        "slowpure" => for f in ["re_find", "re_replace", "sort", "re_is_match", "split", "replace", "contains", "unique"].iter().take(n as usize) { writeln!(w, "slowpure {}", f).unwrap(); },
         "scan" => for _ in 0..n { writeln!(w, "scan {}", hex(&lang::gen_text(&mut r))).unwrap(); },
+        // ONE decimal number literal per case (judged by the model's scanner, proved to yield the nearest double): shortest and long renderings of random
+        // doubles, digit strings far longer than 17 significant digits, and texts on / a hair above / a hair below the midpoint of two adjacent doubles
+        "numlit" => for _ in 0..n { let x = gen::gen_num(&mut r).abs(); let x = if x.is_finite() { x } else { 1.5 };
+            let t = match r.below(6) { 0 | 1 => gen::midpoint_literal(&mut r), 2 => format!("{}", x), 3 => { let mut t = format!("{:.*}", r.usize(60), x); t.truncate(600); t }
+                4 => { let n = 18 + r.usize(40); let d: String = (0..n).map(|i| char::from(b'0' + if i == 0 { 1 + r.below(9) } else { r.below(10) } as u8)).collect();
+                       match r.below(3) { 0 => d, 1 => { let k = r.usize(n); format!("{}.{}", &d[..k], &d[k..]) } _ => format!(".{}", d) } }
+                _ => format!("{}{}", (0..r.usize(30)).map(|_| '0').collect::<String>(), x) };
+            let t = if t.contains(|c: char| !(c.is_ascii_digit() || c == '.')) { "1.25".to_string() } else { t };      // exponent forms are not literals of the language
+            writeln!(w, "scan {}", hex(&t)).unwrap(); },
+        // ONE string literal per case (judged by the model's scanner, proved to denote exactly the contents with '' for one quote)
+        "strlit" => for _ in 0..n { let c = match r.below(3) { 0 => r.pick(gen::STRS).to_string(), 1 => gen::gen_str(&mut r),
+                _ => { let k = r.usize(7); (0..k).map(|_| *r.pick(&['\\', 'u', '{', '}', '4', '1', '\'', 'n', 'x', '&', '#', ';', '%', '/', ' ', '\n', 'é', '"'])).collect() } };
+            writeln!(w, "scan {}", hex(&format!("'{}'", c.replace('\'', "''")))).unwrap(); },
         "compile" => for _ in 0..n { writeln!(w, "compile {}", hex(&lang::gen_text(&mut r))).unwrap(); },
         "compiledeep" => for _ in 0..n {
             let depth = 1 + r.usize(64);
